@@ -253,3 +253,41 @@ Definition canon_today : bytes -> result bytes := canon_at cfg_today.
 Definition parse : bytes -> result jv := unmarshal_with cfg_fixed (fun m => m).
 (* printing of the fixed code *)
 Definition print : jv -> result bytes := marshal cfg_fixed.
+
+(* ---------------------------------------------------------------------------------------- *)
+(* computable form of the float premise of the round-trip theorems (evaluated by the check     *)
+(* on every generated input): the text has the shape -?d.d+E-?d+ and reads back as the float   *)
+(* ---------------------------------------------------------------------------------------- *)
+Definition is_nil {A} (l : list A) : bool := match l with [] => true | _ => false end.
+
+Definition float_shapeb (txt : bytes) : bool :=
+  let body := match txt with b :: r => if Byte.eqb b c_minus then r else txt | [] => [] end in
+  match body with
+  | d0 :: dot :: r =>
+    is_digit d0 && Byte.eqb dot c_dot &&
+    (let '(fs, r2) := span_digits r in
+     negb (is_nil fs) &&
+     match r2 with
+     | e :: r3 =>
+       Byte.eqb e c_E &&
+       (let es := match r3 with m :: r4 => if Byte.eqb m c_minus then r4 else r3 | [] => [] end in
+        negb (is_nil es) && all_digits es)
+     | [] => false
+     end)
+  | _ => false
+  end.
+
+Definition f64_eqb (a b : f64) : bool :=
+  let '(F64 n1 m1 e1) := a in let '(F64 n2 m2 e2) := b in Bool.eqb n1 n2 && (m1 =? m2) && (e1 =? e2).
+
+Definition float_okb (f : f64) : bool :=
+  let txt := float_marshal cfg_fixed f in
+  float_shapeb txt && match parse_float txt with Some g => f64_eqb g f | None => false end.
+
+Fixpoint floats_okb (v : jv) : bool :=
+  match v with
+  | JFloat f => float_okb f
+  | JArr l => forallb floats_okb l
+  | JObj m => forallb (fun kv => floats_okb (snd kv)) m
+  | _ => true
+  end.
